@@ -20,6 +20,19 @@ CLAIMED = {
   "text": "Gate-by-precondition on the real text of update_prove_state_to_child, commit_prove_state, SendLastStateProcess::execute (child fast path), ProveState::new_child/is_parent_of, check_verifiable_header, patched_is_valid, is_parent_of: the stored-tip writer Storage::update_last_state requires (a) a strictly greater total difficulty than the stored one and (b) evidence that difficulty, header and last-N window come from one trusted prove state; a child is trusted only if it is a PoW-valid, chain-root-committing child of a trusted tip whose chain root's total difficulty equals the proven parent's. Verus proves every call site discharges these for all inputs.",
   "note": "Evidence predicates are uninterpreted and defined by introduction rules (trusted definitions from the property text); storage/peer table are shims; restart round-trip not covered. Found and fixed: S2 (53bb5c8).",
   "ref": "DESIGN.md 5-C12"},
+
+ "C01": {
+  "text": "Gate-by-precondition over the real text of SendLastStateProofProcess::execute (300 lines), check_if_response_is_matched, check_continuous_headers, verify_mmr_proof, check_chain_root_for_headers, check_pow_for_headers, check_verifiable_header, patched_is_valid, is_parent_of, commit_prove_state, get_last_state_proof, process_last_state: the only writers of trusted chain state (peer prove state, stored tip, index rollback) require the evidence predicate ps_trusted, whose introduction rule is the conjunction the property statement lists (answers the outstanding request; every header PoW-valid and committing to its chain root; reorg and last-N sections continuous; MMR proof binds all headers to the chain root committed by the requested last header; sections have exactly the requested shape - proved against a closed spec shape_ok incl. the sample/difficulty matching loop; tau and total-difficulty evidence). Verus proves that every path of the handler reaching a writer carries all of it, for every response, peer state and stored state.",
+  "note": "Uninterpreted crypto predicates; molecule/storage/peer-table shims; iterator adapters lowered to assumed helpers; definitions of the evidence predicates are trusted text derived from the property. Found and fixed while proving: S1b (4e1a4f2), S1e/S1f (f66b534), S1h (slice panic).",
+  "ref": "DESIGN.md 5-C01"},
+ "C04": {
+  "text": "Partial: contracts on the real text of commit_prove_state (fork-point search via stored last-N headers, rollback target, long-fork result) and the callers' gates: the index is rolled back only to <= fork point + 1 where the fork point is the highest reorg header equal to a remembered last-N header (or to block 1 when the previous tip is block 1); Ok(false) is returned only if no reorg header is remembered and then the stored tip writer is not reached with reorg evidence; the stored tip moves only to a strictly heavier trusted state.",
+  "note": "Storage::rollback_to_block itself, pruning effects on stored matched-block records, liveness ('never gets stuck') and build_prove_request_content's rebasing are NOT decided here.",
+  "ref": "DESIGN.md 5-C04"},
+ "C10": {
+  "text": "Partial: Verus's totality obligations (no arithmetic overflow on u64/u32/usize, no out-of-bounds index/slice, no unwrap/expect on None/Err, no reachable panic!, dependency calls that panic modelled as preconditions) are discharged for every function extracted in units difficulty, peer_state and proof_gate with NO assumption on peer-controlled inputs; the SendLastState and SendLastStateProof handlers are covered end to end. Five peer-triggerable panics were found this way and fixed (bdfa2f5, 4e1a4f2, f66b534, S1h); the U256-overflow sites reachable only with absurd difficulties are listed known findings (D2).",
+  "note": "Handlers not yet under contract are named in the evidence (not_decided). Molecule decoding and dependencies are assumed total.",
+  "ref": "DESIGN.md 5-C10"},
 }
 
 NOT_APPLICABLE = {
